@@ -21,6 +21,11 @@ def check(ctx):
     # (C11.a: an attempt writes nothing a later call reads — a result remembered across calls is replayed at a position it was
     # not computed for, and its span need not fit the text there)
     cursor.analyze(ctx, RULES | {"C09.a", "C10.b", "C10.a", "C01.e", "C11.b", "C11.a"})   # C01.e: reported span = attempt span shifted once by the offset (non-empty, in bounds)
+    # (C06.i: every mode the caller adds is compiled, at the position it was added — the precondition "transitions go to
+    # existing modes" is stated in the caller's numbering; a builder that drops, merges or reorders modes makes a valid
+    # configuration index past the end of the compiled list)
+    from . import pC06
+    pC06.mode_order_rules(ctx)
     from . import panics
     panics.analyze(ctx, {"C07.d", "C07.e"})
     # (C06.e: the iterator scans the caller's own input — a haystack that was trimmed, copied or re-encoded on the way gives spans that do not fit the string the caller holds)
